@@ -79,6 +79,42 @@ def main(ck):
     corrupt("ok turned into err", lambda e: e["op"] == "read_bits" and e["res"] == "ok",
             lambda e: dict(e, res="err"))
 
+    corrupt("backend flush not reached", lambda e: e["op"] == "flush" and e["res"] == "ok" and e.get("bfl", 0) >= 1,
+            lambda e: dict(e, bfl=0))
+
+    # the stateless parts: implied distribution (probabilities are exact doubles), vbyte io
+    pure = os.path.join(work, "pure.ndjson")
+    ck.vh(vh, ["record", "changepoints", "--out", pure, "--seed", "7"])
+    r = ck.run_tv("Trace_Pure", pure, "st_pure")
+    note("baseline change-point trace accepted", r["accepted"])
+    plines = open(pure).read().splitlines()
+
+    def corrupt_pure(name, mut):
+        idxs = [i for i, l in enumerate(plines) if '"op":"implied"' in l and len(json.loads(l)["probs"]) >= 3]
+        i = idxs[rnd.randrange(len(idxs))]
+        out = list(plines)
+        out[i] = json.dumps(mut(json.loads(out[i])))
+        pth = os.path.join(work, "corrupt_pure_%s.ndjson" % name.replace(" ", "_"))
+        open(pth, "w").write("\n".join(out) + "\n")
+        r = ck.run_tv("Trace_Pure", pth, "st_pure_" + name.replace(" ", "_"))
+        good = (not r["accepted"]) and abs(r.get("rejected_at", -99) - (i + 1)) <= 1
+        note("corruption %-28s at event %d" % (name, i + 1), good, "rejected at %s" % r.get("rejected_at"))
+
+    def prob_exp(e):
+        e["probs"][1][1] += 1
+        return e
+
+    def sample_out(e):
+        e["samples"][0] = [255] * 8
+        return e
+
+    def drop_prob(e):
+        e["probs"].pop()
+        return e
+    corrupt_pure("probability doubled", prob_exp)
+    corrupt_pure("sample outside brackets", sample_out)
+    corrupt_pure("one bracket missing", drop_prob)
+
     # ---------------------------------------------------------------- 2. specification mutants
     def mutant(name, module, cfg_text, edits, expect="violated"):
         d = tempfile.mkdtemp(prefix="specmut_", dir=work)
